@@ -73,6 +73,9 @@ package database
 //@   modifies *primaryKeys, elems(*primaryKeys), reach(v.stringBuilder), mapof(visitedAttributes)
 //@   perwrite
 //@   ensures [column-type-recorded] in(tableName + "." + attrName, visitedAttributes)
+// A retained column that was a reference and is a plain column now has no old SQL type of its own to compare with
+// (the memo holds types of the *new* version): the comparison is against the empty type, so the column is retyped.
+//@   assert @call:strings.EqualFold [a-removed-reference-compares-against-no-old-type] typeRefOld != nil ==> arg1 == ""
 //@ func (*ScriptView).addConstraints
 //@   pure
 //@ func (*ScriptView).getPrimaryKeyString
